@@ -187,6 +187,38 @@ def fam_ctl(rng, pid):
     return b.prog(cfg)
 
 
+def fam_stop2(rng, pid):
+    """several clients stop / restart / resume the worker at the same time while jobs are pending or in flight"""
+    b = Builder(rng, 'stop2', pid)
+    cfg = base_cfg(rng)
+    cfg['ctx'] = rng.random() < 0.25
+    if rng.random() < 0.25:
+        cfg['expiry_us'] = rng.choice([300, 1000])
+    pr = PRIOS if cfg['queues'][0] == 'prio' else None
+    b.client('c1', [b.add(0, pr) for _ in range(rng.choice([1, 2, 3]))] + ([{'op': 'WUF'}] if rng.random() < 0.3 else []))
+    stoppers = rng.choice([2, 2, 3])
+    for i in range(stoppers):
+        r = rng.random()
+        if r < 0.45:
+            ops = [{'op': 'Stop'}]
+        elif r < 0.65:
+            ops = [{'op': 'WaitAndStop'}]
+        elif r < 0.8:
+            ops = [{'op': 'PauseAndWait'}, {'op': 'Stop'}]
+        elif r < 0.9:
+            ops = [{'op': 'Pause'}, {'op': 'Resume'}]
+        else:
+            ops = [{'op': 'CancelCtx'}] if cfg['ctx'] else [{'op': 'Stop'}]
+        if rng.random() < 0.4:
+            ops += [{'op': 'NumProcessing'}]
+        if i == 0 and rng.random() < 0.6:
+            ops += [{'op': 'Restart'}, {'op': 'WUF'}]
+        elif rng.random() < 0.2:
+            ops += [{'op': rng.choice(['Resume', 'Restart'])}]
+        b.client(['ctl', 'x', 'y'][i], ops)
+    return b.prog(cfg)
+
+
 def fam_cancel(rng, pid):
     """Close / Purge / QClose racing dispatch and completion"""
     b = Builder(rng, 'cancel', pid)
@@ -570,7 +602,7 @@ def life_exhaustive(maxlen, seed, prefix):
     return out
 
 
-FAMILIES = {'reject': fam_reject, 'multim': fam_multim, 'life': fam_life, 'distbind': fam_distbind, 'bind2': fam_bind2, 'tune': fam_tune, 'adapter': fam_adapter, 'dist': fam_dist, 'basic': fam_basic, 'barrier': fam_barrier, 'ctl': fam_ctl, 'cancel': fam_cancel, 'batch': fam_batch,
+FAMILIES = {'stop2': fam_stop2, 'reject': fam_reject, 'multim': fam_multim, 'life': fam_life, 'distbind': fam_distbind, 'bind2': fam_bind2, 'tune': fam_tune, 'adapter': fam_adapter, 'dist': fam_dist, 'basic': fam_basic, 'barrier': fam_barrier, 'ctl': fam_ctl, 'cancel': fam_cancel, 'batch': fam_batch,
             'handle': fam_handle, 'pool': fam_pool, 'multi': fam_multi}
 
 
